@@ -316,9 +316,12 @@ StmtsInputs ==
 \* -- scope (C11): bindings at file, rule and build level referencing each other
 FileBinds == {<<"a", P("1")>>, <<"a", <<Var("a"), Lit("+2")>>>>, <<"b", <<Var("a")>>>>,
               <<"b", <<Lit("x"), Var("a"), Lit("."), Var("b")>>>>, <<"c", <<Var("b"), Var("zz")>>>>}
+\* (a binding to the empty string is a binding: it shadows the outer scope and replaces the
+\* rule's attribute)
 BuildBinds == {<<>>, << <<"a", P("B")>> >>, << <<"b", <<Var("a"), Lit("!")>>>> >>,
                << <<"a", <<Var("a"), Lit("+")>>>>, <<"b", <<Var("a")>>>> >>,
-               << <<"command", <<Lit("own "), Var("a"), Var("b"), Var("in")>>>>, <<"a", P("B")>> >>}
+               << <<"command", <<Lit("own "), Var("a"), Var("b"), Var("in")>>>>, <<"a", P("B")>> >>,
+               << <<"a", <<>>>> >>, << <<"description", <<>>>>, <<"b", <<>>>> >>}
 RuleCmds == {<<Var("a")>>, <<Var("a"), Lit("."), Var("b"), Lit("."), Var("c")>>,
              <<Var("in"), Lit(">"), Var("out"), Lit(" "), Var("b")>>}
 
